@@ -1,0 +1,43 @@
+//go:build verif
+
+// Contracts for the acv verifier (/verif). Comment-only file: no executable code.
+
+package asn1
+
+// Decoders either return an object or an error, never both or neither, and reject trailing bytes.
+//@ func UnmarshalVerifiedContainer(data []byte) (c *VerifiedContainer, err error)
+//@   props C08 C18 C14
+//@   safety
+//@   ensures (err == nil) <==> (c != nil)
+//@   ensures trailing-bytes-rejected: ret(asn1.Unmarshal)[1] == nil && len(ret(asn1.Unmarshal)[0]) != 0 ==> err == ErrExtraData
+//@   at call asn1.Unmarshal : assert sameslice(arg[0], data)
+
+//@ func UnmarshalEncryptedKeys(data []byte) (keys *EncryptedKeys, err error)
+//@   props C18 C14
+//@   safety
+//@   ensures (err == nil) <==> (keys != nil)
+//@   ensures trailing-bytes-rejected: ret(asn1.Unmarshal)[1] == nil && len(ret(asn1.Unmarshal)[0]) != 0 ==> err == ErrExtraData
+//@   at call asn1.Unmarshal : assert sameslice(arg[0], data)
+
+//@ func UnmarshalKeyRing(data []byte) (ring *KeyRing, err error)
+//@   props C08 C14
+//@   safety
+//@   ensures (err == nil) <==> (ring != nil)
+//@   ensures trailing-bytes-rejected: ret(asn1.Unmarshal)[1] == nil && len(ret(asn1.Unmarshal)[0]) != 0 ==> err == ErrExtraData
+//@   at call asn1.Unmarshal : assert sameslice(arg[0], data)
+
+//@ func UnmarshalKeyDirectory(data []byte) (dir *KeyDirectory, err error)
+//@   props C08 C14
+//@   safety
+//@   ensures (err == nil) <==> (dir != nil)
+//@   at call asn1.Unmarshal : assert sameslice(arg[0], data)
+
+// Lookup by sequence number: the returned key is the element at the returned index and has that number.
+//@ func (r *KeyRing) KeyWithSeqnum(seqnum int) (key *Key, idx int)
+//@   props C06 C08 C14
+//@   safety
+//@   loop 0 invariant -1 <= i && i < len(r.Keys)
+//@          invariant forall(j, i + 1, len(r.Keys), r.Keys[j].Seqnum != seqnum)
+//@          decreases i + 1
+//@   ensures found: key != nil ==> 0 <= idx && idx < len(r.Keys) && key == &r.Keys[idx] && r.Keys[idx].Seqnum == seqnum
+//@   ensures not-found: key == nil ==> idx == -1 && forall(i, 0, len(r.Keys), r.Keys[i].Seqnum != seqnum)
